@@ -38,7 +38,11 @@ func (c *Ctx) httpRoles() *httpRoles {
 		}
 		for _, ci := range callsIn(fn) {
 			cc := ci.Common()
-			if cc.IsInvoke() && cc.Method.Name() == "Read" && cc.Method.Pkg() != nil && cc.Method.Pkg().Path() == "io" {
+			isRead := cc.IsInvoke() && cc.Method.Name() == "Read" && cc.Method.Pkg() != nil && cc.Method.Pkg().Path() == "io"
+			if f := cc.StaticCallee(); f != nil && (qualName(f) == "io.ReadFull" || qualName(f) == "io.ReadAtLeast") {
+				isRead = true // the same contract as far as the rules go: (n, err), io.EOF only when nothing was read
+			}
+			if isRead {
 				if cyc, _ := c.pathExists(fn, ci, func(in ssa.Instruction) bool { return in == ssa.Instruction(ci) }, nil); cyc {
 					hr.bulk, hr.read = fn, ci
 				}
@@ -215,11 +219,38 @@ func ruleHTTPReadLoop(c *Ctx, r *Rule) {
 		}
 	}
 	if inLoop != nil {
+		// completeness of the error exit: the loop goes on only when the read reported no error or io.EOF
+		// (any other error — a body cut off by the transport — must end the request with that error)
+		okOnly := false
+		for _, cl := range c.guards(fn)[inLoop.Block()] {
+			if len(cl) == 0 || len(cl) > 2 {
+				continue
+			}
+			all := true
+			for _, l := range cl {
+				if isErrNil(l, errVal, true) {
+					continue
+				}
+				if op, x, y, ok := cmpLit(l); ok && op == token.EQL && ((x == errVal && isEOF(y)) || (y == errVal && isEOF(x))) {
+					continue
+				}
+				all = false
+			}
+			if all {
+				okOnly = true
+			}
+		}
+		r.Ob(okOnly, name+"|continues-only-without-error", inLoop.Pos(), "the read loop continues only when Read reported no error or io.EOF; guards at the chunk call: "+c.clausesString(c.guards(fn)[inLoop.Block()]))
 		args := inLoop.Common().Args
 		okSlice := false
 		for _, a := range args {
 			if sl, ok := a.(*ssa.Slice); ok && sl.High == nVal && sl.Low == nil {
-				if rb := hr.read.Common().Args; len(rb) == 1 && (sameRoot(sl.X, rb[0]) || sameVar(sl.X, rb[0])) {
+				rb := hr.read.Common().Args
+				bufArg := 0
+				if !hr.read.Common().IsInvoke() {
+					bufArg = 1
+				}
+				if bufArg < len(rb) && (sameRoot(sl.X, rb[bufArg]) || sameVar(sl.X, rb[bufArg])) {
 					okSlice = true
 				}
 			}
@@ -428,6 +459,18 @@ func ruleHTTPPairing(c *Ctx, r *Rule) {
 				msg = "a return at " + c.pos(w.Pos()) + " is reachable after " + f.Name() + " and before its release is deferred"
 			}
 			r.Ob(!early, key+"|released", ci.Pos(), msg)
+			// the deferred release ends the resource's life with this function: it must not be handed out
+			escapes := false
+			for _, ret := range returnsOf(fn) {
+				for _, res := range retResults(ret) {
+					for _, leaf := range phiLeaves(res) {
+						if leaf == val || c.derivedFrom(leaf, val) {
+							escapes = true
+						}
+					}
+				}
+			}
+			r.Ob(!escapes, key+"|not-used-after-release", ci.Pos(), "the resource obtained from "+f.Name()+" is released by a defer of this function and is not returned to the caller (a caller that keeps using it shares it with the next request that acquires it)")
 			// ... and exactly once: no second release of the same value (a pooled object put back twice is
 			// handed to two later requests at the same time)
 			if rel := def.Call.StaticCallee(); rel != nil {
